@@ -465,3 +465,112 @@ func TestElectricConcurrent(t *testing.T) {
 		lib.Ev.Case(fmt.Sprintf("conc|%v", scripts), func() any { return fmt.Sprintf("concurrent scripts %v", scripts) })
 	})
 }
+
+// duelOps are the calls whose interplay the invariants depend on; x and y are two existing modes.
+var duelOps = []struct {
+	name string
+	run  func(w *world, x, y string) (activated bool)
+}{
+	{"DeleteMode(x)", func(w *world, x, y string) bool { _ = w.m.DeleteMode(x); return false }},
+	{"DeleteMode(y)", func(w *world, x, y string) bool { _ = w.m.DeleteMode(y); return false }},
+	{"server.DeleteMode(x,allowMissing)", func(w *world, x, y string) bool {
+		_, _ = w.srv.DeleteMode(ctx, &electricpb.DeleteModeRequest{Name: "n", Id: x, AllowMissing: true})
+		return false
+	}},
+	{"ChangeActiveMode(x)", func(w *world, x, y string) bool { _, err := w.m.ChangeActiveMode(x); return err == nil }},
+	{"SetActiveMode(x)", func(w *world, x, y string) bool { return w.m.SetActiveMode(&traits.ElectricMode{Id: x}) == nil }},
+	{"server.UpdateActiveMode(x)", func(w *world, x, y string) bool {
+		_, err := w.srv.UpdateActiveMode(ctx, &traits.UpdateActiveModeRequest{Name: "n", ActiveMode: &traits.ElectricMode{Id: x}})
+		return err == nil
+	}},
+	{"ClearActiveMode", func(w *world, x, y string) bool {
+		_, err := w.srv.ClearActiveMode(ctx, &traits.ClearActiveModeRequest{Name: "n"})
+		return err == nil
+	}},
+	{"ChangeToNormalMode", func(w *world, x, y string) bool { _, err := w.m.ChangeToNormalMode(); return err == nil }},
+	{"UpdateMode(x,normal)", func(w *world, x, y string) bool {
+		_, _ = w.m.UpdateMode(&traits.ElectricMode{Id: x, Normal: true})
+		return false
+	}},
+	{"UpdateMode(y,normal)", func(w *world, x, y string) bool {
+		_, _ = w.m.UpdateMode(&traits.ElectricMode{Id: y, Normal: true})
+		return false
+	}},
+	{"CreateMode(normal)", func(w *world, x, y string) bool { _, _ = w.m.CreateMode(&traits.ElectricMode{Normal: true}); return false }},
+	{"AddMode(z,normal)", func(w *world, x, y string) bool { _ = w.m.AddMode(&traits.ElectricMode{Id: "z", Normal: true}); return false }},
+}
+
+var spinSink atomic.Int64
+
+func spin(n int) {
+	for i := 0; i < n; i++ {
+		spinSink.Add(1)
+	}
+}
+
+// TestElectricDuels: two (or three) calls released at the same instant on a fresh model, many rounds per drawn pair
+// with a sweep of start skews, invariants checked at quiescence after every round. It aims at check-then-act windows
+// between the calls that the random scripts of TestElectricConcurrent only hit by luck.
+func TestElectricDuels(t *testing.T) {
+	rounds := lib.Scale(150, 600)
+	rapid.Check(t, func(t *rapid.T) {
+		xNormal := rapid.Bool().Draw(t, "xNormal")
+		yNormal := !xNormal && rapid.Bool().Draw(t, "yNormal")
+		startActive := rapid.SampledFrom([]string{"", "x", "y"}).Draw(t, "startActive")
+		n := rapid.IntRange(2, 3).Draw(t, "n")
+		var ops []int
+		for i := 0; i < n; i++ {
+			ops = append(ops, rapid.IntRange(0, len(duelOps)-1).Draw(t, "op"))
+		}
+		var names []string
+		for _, o := range ops {
+			names = append(names, duelOps[o].name)
+		}
+		desc := fmt.Sprintf("x(normal=%v) y(normal=%v) active=%q duel %s", xNormal, yNormal, startActive, strings.Join(names, " || "))
+		for r := 0; r < rounds; r++ {
+			w := newWorld()
+			if err := w.m.AddMode(&traits.ElectricMode{Id: "x", Normal: xNormal}); err != nil {
+				t.Fatal(err)
+			}
+			if err := w.m.AddMode(&traits.ElectricMode{Id: "y", Normal: yNormal}); err != nil {
+				t.Fatal(err)
+			}
+			if startActive != "" {
+				if _, err := w.m.ChangeActiveMode(startActive); err != nil {
+					t.Fatal(err)
+				}
+				w.activeChanged = true
+			}
+			var ready sync.WaitGroup
+			var done sync.WaitGroup
+			var start atomic.Bool
+			var activated atomic.Bool
+			for i, o := range ops {
+				i, o := i, o
+				ready.Add(1)
+				done.Add(1)
+				go func() {
+					defer done.Done()
+					ready.Done()
+					for !start.Load() {
+					}
+					// sweep the relative start of the calls over the rounds
+					spin(((r * (i + 1)) % 40) * 8)
+					if duelOps[o].run(w, "x", "y") {
+						activated.Store(true)
+					}
+				}()
+			}
+			ready.Wait()
+			start.Store(true)
+			done.Wait()
+			w.activeChanged = w.activeChanged || activated.Load()
+			if err := w.invariants(); err != nil {
+				t.Fatalf("at quiescence after round %d of %s: %v", r, desc, err)
+			}
+		}
+		lib.Ev.Class("duel")
+		lib.Ev.ClassN("duel rounds", int64(rounds))
+		lib.Ev.Case("duel|"+desc, func() any { return fmt.Sprintf("%d rounds of %s", rounds, desc) })
+	})
+}
